@@ -195,6 +195,7 @@ type closeFault struct {
 	rst       bool
 	burst     int // unrelated packets written immediately before the close
 	burstKind noiseKind
+	all       bool // every established connection of the client is closed, not only the one the query came on
 }
 
 type scenario struct {
@@ -259,6 +260,9 @@ func (sc *scenario) String() string {
 	}
 	for _, f := range sc.closes {
 		fmt.Fprintf(&sb, "; close(rst=%v) at query %d", f.rst, f.atQuery)
+		if f.all {
+			sb.WriteString(" of all connections")
+		}
 		if f.burst > 0 {
 			fmt.Fprintf(&sb, " after a burst of %d %s packets", f.burst, noiseNames[f.burstKind])
 		}
@@ -589,10 +593,21 @@ func (st *srvState) onQuery(cn *adnlsrv.Conn, id [32]byte, body []byte) {
 	st.mu.Unlock()
 	if fault != nil {
 		end := func() {
-			if fault.rst {
-				cn.Reset()
-			} else {
-				cn.Close()
+			targets := []*adnlsrv.Conn{cn}
+			if fault.all {
+				targets = st.srv.Conns()
+				st.mu.Lock()
+				for _, t := range targets {
+					st.scripted[t] = true
+				}
+				st.mu.Unlock()
+			}
+			for _, t := range targets {
+				if fault.rst {
+					t.Reset()
+				} else {
+					t.Close()
+				}
 			}
 		}
 		if fault.burst == 0 {
@@ -1071,6 +1086,9 @@ func runScenario(sc *scenario) *outcome {
 			default:
 				mine += q.delay + sc.timeout/3
 			}
+			if q.pre == 2 {
+				mine += time.Duration(q.preUS) * time.Microsecond
+			}
 		}
 		if mine > budget {
 			budget = mine
@@ -1149,6 +1167,31 @@ func runScenario(sc *scenario) *outcome {
 	return o
 }
 
+// witnesses returns the largest number of calls that one caller other than except began at or after from
+// and finished by to, counting a call only when it began at least 50 ms after the previously counted one
+// (o.calls holds each caller's calls in a row, in the order they were made).
+func (o *outcome) witnesses(except int, from, to time.Time) int {
+	best, cur, n := 0, -1, 0
+	var last time.Time
+	for i := range o.calls {
+		w := &o.calls[i]
+		if w.caller != cur {
+			cur, n, last = w.caller, 0, time.Time{}
+		}
+		if w.caller == except || w.end.IsZero() || w.start.Before(from) || w.end.After(to) {
+			continue
+		}
+		if n > 0 && w.start.Sub(last) < 50*time.Millisecond {
+			continue
+		}
+		last = w.start
+		if n++; n > best {
+			best = n
+		}
+	}
+	return best
+}
+
 // judge applies the history invariants to the calls of phase A.
 func (o *outcome) judge(c *core.Ctx) string {
 	if o.violation != "" {
@@ -1209,11 +1252,24 @@ func (o *outcome) judge(c *core.Ctx) string {
 		c.Class("call returned an error")
 		dur := r.end.Sub(r.start)
 		if dur > sc.timeout+time.Second {
-			if stalled(r.start, r.end) {
-				c.Class("excused by a process stall")
-				continue
+			// A timeout (or send error) return crosses a handful of goroutine hand-overs. A process that was
+			// visibly not keeping up excuses a late return only as far as the observed scheduling delay can
+			// explain it (twenty times the largest delay on top of the second of slack), and not at all when
+			// another caller of the same client went through ten calls of its own, begun at least 50 ms apart,
+			// between this call's deadline + 1 s and its return: the scheduler served that goroutine ten times
+			// over at least 450 ms while this one was overdue.
+			lag := maxLag(r.start, r.end)
+			wit := o.witnesses(r.caller, r.start.Add(sc.timeout+time.Second), r.end)
+			switch {
+			case lag <= 50*time.Millisecond:
+				return fmt.Sprintf("LATE RETURN: %s returned its error (%v) more than 1 s after the %v deadline", desc(), r.err, sc.timeout)
+			case dur-sc.timeout > time.Second+20*lag:
+				return fmt.Sprintf("LATE RETURN: %s returned its error (%v) %v after the %v deadline; the largest scheduling delay during the call was %v", desc(), r.err, (dur - sc.timeout).Round(time.Millisecond), sc.timeout, lag)
+			case wit >= 10:
+				return fmt.Sprintf("LATE RETURN: %s returned its error (%v) %v after the %v deadline, while another caller of the same client completed %d calls (begun at least 50 ms apart) between this call's deadline + 1 s and its return (largest scheduling delay during the call %v)", desc(), r.err, (dur - sc.timeout).Round(time.Millisecond), sc.timeout, wit, lag)
 			}
-			return fmt.Sprintf("LATE RETURN: %s returned its error (%v) more than 1 s after the %v deadline", desc(), r.err, sc.timeout)
+			c.Class("excused by a process stall")
+			continue
 		}
 		if !liteclient.IsClientError(r.err) {
 			return fmt.Sprintf("%s failed with an error that is not a liteclient client error: %T %v", desc(), r.err, r.err)
@@ -1713,6 +1769,7 @@ func TestProp(t *testing.T) {
 	t.Run("drop-sequence", func(t *testing.T) { core.Run(t, dropSeqCheck) })
 	t.Run("at-deadline", func(t *testing.T) { core.Run(t, edgeCheck) })
 	t.Run("auth-reconnect", func(t *testing.T) { core.Run(t, authCheck) })
+	t.Run("outage-steady", func(t *testing.T) { core.Run(t, steadyCheck) })
 	t.Run("batch", func(t *testing.T) {
 		core.Run(t, batchCheck)
 		core.Extra(batchCheck.Name, "scenarios", totalScenarios.Load())
@@ -1722,5 +1779,5 @@ func TestProp(t *testing.T) {
 }
 
 func TestReplay(t *testing.T) {
-	core.Replay(t, batchCheck, outageCheck, longPollCheck, dropSeqCheck, edgeCheck, authCheck)
+	core.Replay(t, batchCheck, outageCheck, longPollCheck, dropSeqCheck, edgeCheck, authCheck, steadyCheck)
 }
